@@ -153,6 +153,45 @@ func (l *List[T]) PushNode(n *Node[T]) {
 	l.len++
 }
 
+// PushNodeIfBelow inserts an existing node at the back of the list only while the list holds
+// fewer than limit nodes. The length check and the insertion are one atomic step.
+func (l *List[T]) PushNodeIfBelow(n *Node[T], limit int) bool {
+	l.mx.Lock()
+	defer l.mx.Unlock()
+
+	if l.len >= limit {
+		return false
+	}
+
+	n.next = &l.root
+	n.prev = l.root.prev
+	l.root.prev.next = n
+	l.root.prev = n
+	l.len++
+
+	return true
+}
+
+// PopBackIfAbove removes and returns the last element only while the list holds more than
+// limit nodes, otherwise it returns nil. The length check and the removal are one atomic step.
+func (l *List[T]) PopBackIfAbove(limit int) *Node[T] {
+	l.mx.Lock()
+	defer l.mx.Unlock()
+
+	if l.len <= limit || l.len == 0 {
+		return nil
+	}
+
+	last := l.root.prev
+	last.prev.next = last.next
+	last.next.prev = last.prev
+	last.next = nil // avoid memory leaks
+	last.prev = nil // avoid memory leaks
+	l.len--
+
+	return last
+}
+
 // Remove removes node from its list, decrements l.len, and returns the node
 // The node can be reinserted into a list using PushNode
 // Note: With the list field removed, we can't verify the node belongs to this list
